@@ -52,6 +52,7 @@ PLANS = {
                          ("env", "toggle", 2000, 12, []), ("menv", "toggle", 2000, 12, []), ("env", "overfull", 2000, 12, []), ("menv", "overfull", 2000, 12, []),
                          ("env", "unusual", 2000, 12, []), ("menv", "unusual", 2000, 12, [])]},
     "C10": {"quick": [("env", "plain", 600, 8, []), ("menv", "plain", 600, 8, []), ("menv", "toggle", 300, 8, []),
+                      ("env", "malformed", 300, 6, []), ("menv", "malformed", 300, 6, []),
                       ("env", "unusual", 450, 8, []), ("menv", "unusual", 450, 8, [])],
             "thorough": [("env", "plain", 4000, 12, ["--levels", "1,3,10"]), ("menv", "plain", 4000, 12, ["--levels", "1,3,10"]),
                          ("menv", "toggle", 2000, 12, []), ("env", "malformed", 1000, 10, []), ("env", "unusual", 3000, 12, []), ("menv", "unusual", 3000, 12, [])]},
@@ -318,7 +319,7 @@ def check(prop, tier, seed, spec, verdict, workdir):
                     futs.append(ex.submit(run_profile, f"enum{profile}{pi}_{sh}", kind, profile, sh, hists, ops, extra, workdir))
                 continue
             # split into shards so that all cores are used
-            shards = max(1, min(16, hists // 50))
+            shards = max(1, min(16, hists // 50)) if profile != "long" else min(16, hists)
             per = (hists + shards - 1) // shards
             for s in range(shards):
                 tag = f"{kind}{profile}{pi}_{s}"
